@@ -22,6 +22,7 @@ M = [
  ("new_append keeps the data-descriptor flag","C02","D17 (K-A, flag part): new_append + finish re-emitted the central record of an existing data-descriptor entry WITHOUT flag bit 3 while the untouched local header keeps bit 3 and zero crc/sizes: local and central flags disagree (found by the independent strict parser on the append stream: `entry 0: local flags 0x0008 != central flags 0x0000`; minimal: append nothing onto a one-entry descriptor archive); also C13"),
  ("probing for the ZIP64 locator","C11","D18: get_directory_counts swallowed EVERY failure of the seek to the ZIP64 locator position (.is_ok()), so an injected/transient I/O error at exactly that call made ZipArchive::new fall back to the 16/32-bit end-record fields and return Ok with different entries (Lean witness Props.C11.probe_fault_zip64_wrong_success: 145-byte archive, fault at I/O call 13 -> Ok with 0 entries instead of 1; realistic: this crate's own output with >= 65536 entries -> the first 65535); found by the fault-transparency proof, which would not close at that call"),
  ("compressed-size limit of a non-large entry","C02","D19: update_local_file_header noticed an over-4-GiB COMPRESSED size of a non-large entry only after seeking into the local header and writing the CRC; it returned Err with the sink positioned inside the header and the writer still usable: write() then landed in the header and finish() reported success for an archive that does not open (z64.cguard usize=4294867296 extra=40: Deflate level 0 on zeros -> close=err write=ok finish=ok, reopen: invalid); found by the writer-layout proof (closing such an entry could not be given an invariant); also C08, C12"),
+ ("new_append drops the inherited ZIP64","C13","D20: new_append kept each existing entry's ZIP64 extra record and finish() wrote a regenerated one in front of it; readers apply a ZIP64 record to every field whose value equals the 0xFFFFFFFF placeholder, so with a real size/offset of exactly 0xFFFFFFFF the inherited record was applied a second time with shifted fields: appending NOTHING turned (compressed 4294967295, uncompressed 5) into (5, 5); the copy also grew by one record per round (Lean witness finding_append_corrupts_thr_entry, replayed on the crate); found by the proof that appended archives stay readable, which needed the side condition 'no real value equals the placeholder'"),
  ("AES authentication code is verified before","C16","D12: AE-x entry with a compressing inner method: ciphertext tampered so that the decompressor reaches end-of-stream before the last ciphertext byte is pulled (BFINAL set in the first stored-deflate block of a >32 KiB entry) was returned as a successful truncated read; the authentication code was only verified in the read() that consumes the last ciphertext byte (aes.read ... flip-ct-first)"),
 ]
 log = subprocess.run(["git", "-C", "/repo", "log", "--format=%h %s", "--reverse"], stdout=subprocess.PIPE).stdout.decode().splitlines()
